@@ -166,7 +166,7 @@ func mutateContainer(t *rapid.T, in []byte) []byte {
 // data area; random byte mutation of a 1- or 2-byte offset array cannot make
 // it large, and rarely leaves all the earlier offsets intact.
 func mutateCFFIndex(t *rapid.T, in []byte) []byte {
-	p, err := refcffwalk.Parse(in)
+	p, err := refcffwalk.ParseLayout(in)
 	if err != nil {
 		return in
 	}
@@ -195,6 +195,78 @@ func mutateCFFIndex(t *rapid.T, in []byte) []byte {
 		b[pos+j] = byte(v >> (8 * (offSize - 1 - j)))
 	}
 	stats.Label("cff", fmt.Sprintf("index-offset-mutation:offSize%d", offSize))
+	return b
+}
+
+// mutateCFFSection sets one 8- or 16-bit field inside one of the small
+// structures of a CFF font program (FDSelect, charset, encoding, a Private
+// DICT, the Top DICT INDEX - located by the independent walker) to a hostile
+// value, at any byte alignment.  Charstring bytes dominate a font program, so
+// uniformly placed mutations hardly ever reach these few dozen bytes, and
+// their records are 3 bytes long (FDSelect ranges), which even-aligned
+// mutations miss half of the time.
+func mutateCFFSection(t *rapid.T, in []byte) []byte {
+	p, err := refcffwalk.ParseLayout(in)
+	if err != nil {
+		return in
+	}
+	var cand []refcffwalk.Extent
+	for _, e := range p.Layout.Extents {
+		switch {
+		case e.Name == "FDSelect", e.Name == "Charset", e.Name == "Encoding", e.Name == "TopDICT", strings.HasPrefix(e.Name, "Private["):
+			if e.End-e.Start >= 2 && e.End <= len(in) {
+				cand = append(cand, e)
+			}
+		}
+	}
+	if len(cand) == 0 {
+		return in
+	}
+	b := append([]byte(nil), in...)
+	for _, e := range cand {
+		if e.Name == "FDSelect" { // small and rare: weighted up
+			cand = append(cand, e, e, e)
+			break
+		}
+	}
+	e := rapid.SampledFrom(cand).Draw(t, "section")
+	nGlyphs := 0
+	if p.Font != nil {
+		nGlyphs = len(p.Font.Glyphs)
+	}
+	if e.Name == "FDSelect" && b[e.Start] == 3 && e.End-e.Start >= 8 && rapid.Bool().Draw(t, "fdSelectField") {
+		// format 3: format(1) nRanges(2) {first(2) fd(1)}* sentinel(2): one field by name
+		nr := int(b[e.Start+1])<<8 | int(b[e.Start+2])
+		if e.Start+3+3*nr+2 <= e.End && nr >= 1 {
+			r := rapid.IntRange(0, nr-1).Draw(t, "range")
+			rp := e.Start + 3 + 3*r
+			put := func(pos, v int) { b[pos], b[pos+1] = byte(v>>8), byte(v) }
+			first := int(b[rp])<<8 | int(b[rp+1])
+			switch rapid.IntRange(0, 3).Draw(t, "fdSelectWhat") {
+			case 0:
+				put(rp, rapid.SampledFrom([]int{nGlyphs, nGlyphs + 1, nGlyphs + 300, 0xFFFF, 0x7FFF, first - 1, first + 1, 0}).Draw(t, "first"))
+			case 1:
+				b[rp+2] = byte(rapid.SampledFrom([]int{len(p.Font.FDs), len(p.Font.FDs) + 1, 255, 128}).Draw(t, "fd"))
+			case 2:
+				put(e.Start+3+3*nr, rapid.SampledFrom([]int{nGlyphs - 1, nGlyphs + 1, 0, 0xFFFF, first}).Draw(t, "sentinel"))
+			default:
+				put(e.Start+1, rapid.SampledFrom([]int{nr + 1, nr - 1, 0, 0xFFFF, 0x100 + nr}).Draw(t, "nRanges"))
+			}
+			stats.Label("cff", "section-mutation:FDSelect-format3-field")
+			return b
+		}
+	}
+	for i := rapid.IntRange(1, 2).Draw(t, "nSectionMut"); i > 0; i-- {
+		pos := rapid.IntRange(e.Start, e.End-1).Draw(t, "sectionPos")
+		if rapid.Bool().Draw(t, "oneByte") || pos+2 > e.End {
+			b[pos] = byte(rapid.SampledFrom([]int{0, 1, 2, 3, 0x7F, 0x80, 0xFE, 0xFF, int(b[pos]) + 1, int(b[pos]) - 1}).Draw(t, "v8"))
+		} else {
+			v := rapid.SampledFrom([]int{0, 1, 0x7FFF, 0x8000, 0xFFFE, 0xFFFF, nGlyphs - 1, nGlyphs, nGlyphs + 1, nGlyphs + 28, 2 * nGlyphs,
+				(int(b[pos])<<8 | int(b[pos+1])) + 1, (int(b[pos])<<8 | int(b[pos+1])) - 1}).Draw(t, "v16")
+			b[pos], b[pos+1] = byte(v>>8), byte(v)
+		}
+	}
+	stats.Label("cff", "section-mutation:"+strings.SplitN(e.Name, "[", 2)[0])
 	return b
 }
 
@@ -325,7 +397,25 @@ func subrSeed(t *rapid.T) []byte {
 		fd.Subrs = append(fd.Subrs, body("lsubr"))
 	}
 	spec.FDs = []refcff.FDSpec{fd}
-	for i := rapid.IntRange(1, 3).Draw(t, "nGlyphs"); i > 0; i-- {
+	nGlyphs := rapid.IntRange(1, 3).Draw(t, "nGlyphs")
+	if rapid.Bool().Draw(t, "cidSeed") {
+		// CID-keyed: 1-3 Font DICTs and an FDSelect in either format, in runs
+		spec.CID = true
+		nGlyphs = rapid.IntRange(1, 9).Draw(t, "nGlyphsCID")
+		for i := rapid.IntRange(0, 2).Draw(t, "moreFDs"); i > 0; i-- {
+			spec.FDs = append(spec.FDs, refcff.FDSpec{DefaultWidthX: 500, OmitSubrs: rapid.Bool().Draw(t, "omitSubrs")})
+		}
+		spec.FDSelectFormat = rapid.SampledFrom([]int{0, 3, 3}).Draw(t, "fdSelectFormat")
+		cur := 0
+		for i := 0; i < nGlyphs; i++ {
+			if rapid.IntRange(0, 2).Draw(t, "fdSwitch") == 0 {
+				cur = rapid.IntRange(0, len(spec.FDs)-1).Draw(t, "fd")
+			}
+			spec.FDSelect = append(spec.FDSelect, cur)
+		}
+		stats.Label("cff", "seed:harness-written-cid")
+	}
+	for i := nGlyphs; i > 0; i-- {
 		spec.CharStrings = append(spec.CharStrings, body("glyph"))
 	}
 	var out []byte
@@ -589,8 +679,13 @@ func runGroup(t *testing.T, sub string, names ...string) {
 		if strings.HasPrefix(name, "sfnt.Read") || name == "header.Read" {
 			b = mutateContainer(t, seed)
 		} else {
-			if name == "cff.Read" && rapid.IntRange(0, 2).Draw(t, "indexMut") == 0 {
-				seed = mutateCFFIndex(t, seed)
+			if name == "cff.Read" {
+				switch rapid.IntRange(0, 4).Draw(t, "cffMut") {
+				case 0:
+					seed = mutateCFFIndex(t, seed)
+				case 1, 2:
+					seed = mutateCFFSection(t, seed)
+				}
 			}
 			b = mutateBytes(t, seed)
 		}
